@@ -1,0 +1,182 @@
+//! Instrumented replacement for `std::sync::Mutex`, compiled only with feature `Verif_Hooks`.\
+//! Same API subset as used by this crate. Every mutex gets a unique id and a class label (the
+//! type name of the protected value); acquisitions and releases are reported to an optional
+//! observer that a verification harness can register. Without an observer this is a pass-through.
+
+use std::fmt;
+use std::ops::{Deref, DerefMut};
+use std::sync::atomic::{AtomicBool, AtomicU64, Ordering};
+use std::sync::{Arc, LockResult, PoisonError, RwLock, TryLockError, TryLockResult};
+
+/// Receives the lock events of all instrumented mutexes of the process.
+pub trait Observer: Send + Sync {
+    /// The current thread is about to (possibly blocking) acquire the mutex.
+    fn before_lock(&self, id: u64, class: &'static str);
+    /// The current thread has acquired the mutex.
+    fn acquired(&self, id: u64, class: &'static str);
+    /// The current thread has released the mutex.
+    fn released(&self, id: u64, class: &'static str);
+    /// A try_lock of the current thread failed.
+    fn try_failed(&self, id: u64, class: &'static str);
+}
+
+static NEXT_ID: AtomicU64 = AtomicU64::new(1);
+static ENABLED: AtomicBool = AtomicBool::new(false);
+static OBSERVER: RwLock<Option<Arc<dyn Observer>>> = RwLock::new(None);
+
+/// Installs (or removes) the process wide observer.
+pub fn set_observer(observer: Option<Arc<dyn Observer>>) {
+    let enabled = observer.is_some();
+    match OBSERVER.write() {
+        Ok(mut g) => *g = observer,
+        Err(p) => *p.into_inner() = observer,
+    }
+    ENABLED.store(enabled, Ordering::SeqCst);
+}
+
+#[inline]
+fn observer() -> Option<Arc<dyn Observer>> {
+    if ENABLED.load(Ordering::Relaxed) {
+        match OBSERVER.read() {
+            Ok(g) => g.clone(),
+            Err(p) => p.into_inner().clone(),
+        }
+    } else {
+        None
+    }
+}
+
+pub struct Mutex<T> {
+    id: u64,
+    inner: std::sync::Mutex<T>,
+}
+
+pub struct MutexGuard<'a, T: 'a> {
+    id: u64,
+    inner: Option<std::sync::MutexGuard<'a, T>>,
+}
+
+impl<T> Mutex<T> {
+    pub fn new(t: T) -> Mutex<T> {
+        Mutex {
+            id: NEXT_ID.fetch_add(1, Ordering::Relaxed),
+            inner: std::sync::Mutex::new(t),
+        }
+    }
+
+    /// The unique id of this mutex (as reported to the observer).
+    pub fn verif_id(&self) -> u64 {
+        self.id
+    }
+
+    /// The class label of this mutex (as reported to the observer).
+    pub fn verif_class(&self) -> &'static str {
+        std::any::type_name::<T>()
+    }
+
+    fn wrap<'a>(&self, g: std::sync::MutexGuard<'a, T>) -> MutexGuard<'a, T> {
+        MutexGuard {
+            id: self.id,
+            inner: Some(g),
+        }
+    }
+
+    pub fn lock(&self) -> LockResult<MutexGuard<'_, T>> {
+        let obs = observer();
+        if let Some(o) = &obs {
+            o.before_lock(self.id, self.verif_class());
+        }
+        let r = match self.inner.lock() {
+            Ok(g) => Ok(self.wrap(g)),
+            Err(p) => Err(PoisonError::new(self.wrap(p.into_inner()))),
+        };
+        if let Some(o) = &obs {
+            o.acquired(self.id, self.verif_class());
+        }
+        r
+    }
+
+    pub fn try_lock(&self) -> TryLockResult<MutexGuard<'_, T>> {
+        let obs = observer();
+        match self.inner.try_lock() {
+            Ok(g) => {
+                if let Some(o) = &obs {
+                    o.acquired(self.id, self.verif_class());
+                }
+                Ok(self.wrap(g))
+            }
+            Err(TryLockError::Poisoned(p)) => {
+                if let Some(o) = &obs {
+                    o.acquired(self.id, self.verif_class());
+                }
+                Err(TryLockError::Poisoned(PoisonError::new(
+                    self.wrap(p.into_inner()),
+                )))
+            }
+            Err(TryLockError::WouldBlock) => {
+                if let Some(o) = &obs {
+                    o.try_failed(self.id, self.verif_class());
+                }
+                Err(TryLockError::WouldBlock)
+            }
+        }
+    }
+
+    pub fn is_poisoned(&self) -> bool {
+        self.inner.is_poisoned()
+    }
+}
+
+impl<T> From<T> for Mutex<T> {
+    fn from(t: T) -> Self {
+        Mutex::new(t)
+    }
+}
+
+impl<T: Default> Default for Mutex<T> {
+    fn default() -> Self {
+        Mutex::new(T::default())
+    }
+}
+
+impl<T> fmt::Debug for Mutex<T> {
+    fn fmt(&self, f: &mut fmt::Formatter<'_>) -> fmt::Result {
+        write!(f, "Mutex#{}<{}>", self.id, self.verif_class())
+    }
+}
+
+impl<T> Deref for MutexGuard<'_, T> {
+    type Target = T;
+
+    fn deref(&self) -> &T {
+        self.inner.as_ref().unwrap()
+    }
+}
+
+impl<T> DerefMut for MutexGuard<'_, T> {
+    fn deref_mut(&mut self) -> &mut T {
+        self.inner.as_mut().unwrap()
+    }
+}
+
+impl<T> Drop for MutexGuard<'_, T> {
+    fn drop(&mut self) {
+        // Release the real lock first, then report.
+        self.inner.take();
+        if let Some(o) = observer() {
+            o.released(self.id, std::any::type_name::<T>());
+        }
+    }
+}
+
+impl<T: fmt::Debug> fmt::Debug for MutexGuard<'_, T> {
+    fn fmt(&self, f: &mut fmt::Formatter<'_>) -> fmt::Result {
+        fmt::Debug::fmt(self.inner.as_ref().unwrap(), f)
+    }
+}
+
+impl<T: fmt::Display> fmt::Display for MutexGuard<'_, T> {
+    fn fmt(&self, f: &mut fmt::Formatter<'_>) -> fmt::Result {
+        fmt::Display::fmt(self.inner.as_ref().unwrap(), f)
+    }
+}
